@@ -17,6 +17,6 @@ def load_known(prop):
     p = os.path.join(VERIF, 'known_findings.json')
     if not os.path.exists(p):
         return {}
-    with open(p) as f:
+    with open(p, encoding='utf-8') as f:
         data = json.load(f)
     return {e['key']: e.get('what', '') for e in data.get('known', []) if e.get('property') == prop}
